@@ -97,7 +97,9 @@ func c15Reference(tasks []c15Task, req string) c15Expect {
 				al = t.file + ":" + a
 			}
 			if al == req {
-				hits = append(hits, full(t))
+				if len(hits) == 0 || hits[len(hits)-1] != full(t) { // the same task listing an alias twice is still one task
+					hits = append(hits, full(t))
+				}
 			}
 		}
 	}
@@ -241,6 +243,8 @@ func c15Unit(first string, tier string) *Unit {
 		sets = append(sets,
 			[]c15Task{{name: first, aliases: []string{"al"}}, {name: "other", aliases: []string{"al"}}},
 			[]c15Task{{name: first, aliases: []string{"other"}}, {name: "other"}},
+			[]c15Task{{name: first, aliases: []string{"dup", "x2", "dup"}}, {name: "zz"}},
+			[]c15Task{{name: first, file: "inc", aliases: []string{"dup", "dup"}}},
 			[]c15Task{{name: first, aliases: []string{"w-x"}}, {name: "w-*"}},
 			[]c15Task{{name: "w-*"}, {name: first, aliases: []string{"w-x"}}},
 		)
@@ -265,7 +269,7 @@ func c15Unit(first string, tier string) *Unit {
 				os.WriteFile(filepath.Join(dir, rel), []byte(c), 0o644)
 			}
 			reqs := append([]string{}, c15Alphabet...)
-			reqs = append(reqs, "axb", "a-x", "a-b-c-d", "ax", "xa", "inc:a", "inc:axb", "al", "other", "w-x", "zzz", "a:b:c", "", "A")
+			reqs = append(reqs, "dup", "inc:dup", "axb", "a-x", "a-b-c-d", "ax", "xa", "inc:a", "inc:axb", "al", "other", "w-x", "zzz", "a:b:c", "", "A")
 			for _, t := range tasks {
 				if len(t.name) > 1 {
 					reqs = append(reqs, t.name[:len(t.name)-1], t.name+"x")
